@@ -97,23 +97,21 @@ SOLVERS = {"newton": "solve_projection_onto_manifold_newton", "quasi_newton": "s
 
 def prob_constrained(mk, solver, mkind, n_inner=1, n=1, kind="constr"):
     dim = 2
-    sysm, info = sl.make_system(S, M, mk, kind, dim, mkind=mkind, ckind="linear", hausdorff=True)
+    # potential / gradient uninterpreted: any target density
+    sysm, info = sl.make_system(S, M, mk, kind, dim, mkind=mkind, ckind="linear", hausdorff=True, uf=True)
     cm = info["constraint"]
     eps = mk.pos("eps")
     q, p = mk.arr("q", dim), mk.arr("p", dim)
     Md = info["metric_dense"](list(q))
     Mi = ml.inv(Md)
     a = np.array(cm.a, dtype=object if mk.symbolic else float)
-    # start on the manifold with cotangent momentum (documented precondition of the integrator)
+    # start on the manifold with cotangent momentum (documented precondition of the integrator), by construction:
+    # the offset b is defined as a.q and the momentum is the projection of a free vector
+    cm.b = sum(ai * qi for ai, qi in zip(cm.a, q))
+    g = a @ (Mi @ a)
     if mk.symbolic:
-        mk.require(cm.c(list(q))[0] == 0)
-        mk.require((a @ (Mi @ p)) == 0)
-        mk.require((a @ (Mi @ a)) != 0)
-    else:
-        # project the model's values exactly onto the preconditions
-        g = a @ (Mi @ a)
-        q = q - (Mi @ a) * (cm.c(list(q))[0] / g)
-        p = p - a * ((a @ (Mi @ p)) / g)
+        mk.require(g != 0)
+    p = p - a * ((a @ (Mi @ p)) / g)
     kwargs = {}
     if solver == "line_search":
         kwargs = {"max_line_search_iters": 3}
